@@ -10,7 +10,11 @@ FaceHalfEdgeIterImpl::FaceHalfEdgeIterImpl(
         : BaseIter(_mesh, _ref_h, _max_laps)
         , halfedges_(_mesh->face(_ref_h).halfedges())
 {
-    BaseIter::cur_handle(halfedges_[cur_index_]);
+    // a face without halfedges yields an immediately invalid circulator
+    BaseIter::valid(!halfedges_.empty());
+    if (BaseIter::valid()) {
+        BaseIter::cur_handle(halfedges_[cur_index_]);
+    }
 }
 
 FaceHalfEdgeIterImpl& FaceHalfEdgeIterImpl::operator++()
